@@ -250,8 +250,8 @@ func childMain() int {
 				}()
 				k.c.InjectFrame(payload)
 			}()
-			if cmd == 'j' && !quiesce(5*time.Second, false) {
-				r.Err = "goroutines of the listener did not come to rest within 5s"
+			if cmd == 'j' && !quiesce(30*time.Second, false) {
+				r.Err = "goroutines of the listener did not come to rest within 30s"
 			}
 			for _, f := range k.c.DrainTxQuiesced() {
 				r.Tx = append(r.Tx, hex.EncodeToString(f))
@@ -307,8 +307,8 @@ func childMain() int {
 				}()
 				r.N++
 			}
-			if !quiesce(5*time.Second, false) {
-				r.Err = "goroutines of the listener did not come to rest within 5s"
+			if !quiesce(30*time.Second, false) {
+				r.Err = "goroutines of the listener did not come to rest within 30s"
 			}
 			for _, f := range k.c.DrainTxQuiesced() {
 				r.Tx = append(r.Tx, hex.EncodeToString(f))
